@@ -50,6 +50,7 @@ func VerifC20_Accounting() {
 	big := vpBound("biglen")
 	size := vpU64("tableSize")
 	vpAssume(size >= 31 && size <= uint64(4*(30+big)))
+	vpIdleNow = vpChoose("idle", 2) == 1
 	s := vpMkStore(size)
 	ref := make([]vpRef, nkeys)
 	for i := 0; i < steps; i++ {
@@ -71,6 +72,7 @@ func VerifC20_Churn() {
 	big := vpBound("biglen")
 	size := vpU64("tableSize")
 	vpAssume(size >= 31 && size <= uint64(4*(30+big)))
+	vpIdleNow = vpChoose("idle", 2) == 1
 	s := vpMkStore(size)
 	ref := make([]vpRef, 1)
 	for i := 0; i < rounds; i++ {
